@@ -29,6 +29,9 @@ from .algebra import RF
 from .loader import AnalysisError, ClassInfo, Func, Module, Program, dotted, norm
 
 
+_KEY_OBJ: Dict[Any, Any] = {}
+
+
 class Undecided(Exception):
     """The evaluator met a construct outside its vocabulary."""
 
@@ -321,6 +324,8 @@ class Evaluator:
             return self.hp(st, v.oid)['$items']
         if isinstance(v, Inst) and self.prog.is_namedtuple(v.cls):
             return [self.hp(st, v.oid).get(f, NONE) for f in self.prog.namedtuple_fields(v.cls)]
+        if isinstance(v, DictVal):
+            return [self.key_value(k) for k in v.items]
         return None
 
     def scalar(self, v: AV) -> RF:
@@ -658,13 +663,8 @@ class Evaluator:
             if k is None:
                 raise Undecided('dict unpacking')
             kv = self.eval(k, st, ctx)
-            if isinstance(kv, Const):
-                key: Any = ('c', kv.value)
-            elif isinstance(kv, EnumVal):
-                key = ('e', kv.cls.name, kv.name)
-            elif isinstance(kv, Scalar) and kv.rf.is_const():
-                key = ('n', kv.rf.const_value())
-            else:
+            key: Any = self.dict_key(kv)
+            if key is None:
                 return SymObj(f'<dict at line {node.lineno}>')
             items[key] = self.eval(v, st, ctx)
         return DictVal(items)
@@ -694,13 +694,37 @@ class Evaluator:
 
     @staticmethod
     def dict_key(v: AV):
+        k = Evaluator._dict_key(v)
+        if k is not None and k[0] not in ('c', 'n'):
+            _KEY_OBJ[k] = v          # state-independent values: the key can be turned back into the value
+        return k
+
+    @staticmethod
+    def _dict_key(v: AV):
         if isinstance(v, Const):
             return ('c', v.value)
         if isinstance(v, EnumVal):
             return ('e', v.cls.name, v.name)
         if isinstance(v, Scalar) and v.rf.is_const():
             return ('n', v.rf.const_value())
+        if isinstance(v, ExtRef):
+            return ('x', v.mod, v.attr)
+        if isinstance(v, FuncRef) and v.func is not None and v.self_val is None:
+            return ('f', v.func.fq)
+        if isinstance(v, ClassRef):
+            return ('k', v.ci.module.name, v.ci.name)
+        if isinstance(v, Tup):
+            ks = [Evaluator._dict_key(x_) for x_ in v.items]
+            return None if any(k_ is None for k_ in ks) else ('t',) + tuple(ks)
         return None
+
+    @staticmethod
+    def key_value(k) -> AV:
+        if k[0] == 'c':
+            return Const(k[1])
+        if k[0] == 'n':
+            return Scalar(k[1])
+        return _KEY_OBJ.get(k) or Const(str(k))
 
     def e_NamedExpr(self, node, st, ctx):
         v = self.eval(node.value, st, ctx)
@@ -1251,9 +1275,9 @@ class Evaluator:
             if name == 'values' and not args:
                 return Tup(list(base.items.values()))
             if name == 'keys' and not args:
-                return Tup([Const(k[1]) if k[0] == 'c' else Const(str(k)) for k in base.items])
+                return Tup([self.key_value(k) for k in base.items])
             if name == 'items' and not args:
-                return Tup([Tup([Const(k[1]) if k[0] == 'c' else Const(str(k)), v]) for k, v in base.items.items()])
+                return Tup([Tup([self.key_value(k), v]) for k, v in base.items.items()])
             if name == 'copy' and not args:
                 return DictVal(dict(base.items))
             if name == 'clear' and not args:
@@ -1830,10 +1854,10 @@ class Evaluator:
             if isinstance(s, ast.For) and not getattr(self, 'unroll', False):
                 # a scan over a constant table (tuple of literals / enum members) is read iteration by iteration
                 try:
-                    itv = self.eval(s.iter, st.copy(), ctx)
+                    itv = self.eval(s.iter, st, ctx)
                 except Undecided:
                     itv = None
-                if isinstance(itv, Tup) and 0 < len(itv.items) <= 40 and all(self._is_literal(x_) for x_ in itv.items):
+                if isinstance(itv, Tup) and len(itv.items) <= 40 and all(self._is_literal(x_, st) for x_ in itv.items):
                     return self.unroll_for(s, list(itv.items), 0, rest, st, ctx)
             if isinstance(s, (ast.While, ast.For)):
                 self.havoc_loop(s, st, ctx)
@@ -1975,13 +1999,15 @@ class Evaluator:
             return v
         return None
 
-    def _is_literal(self, v: AV) -> bool:
-        if isinstance(v, (Const, EnumVal)):
+    def _is_literal(self, v: AV, st: Optional[State] = None) -> bool:
+        if isinstance(v, (Const, EnumVal, FuncRef, ClassRef, ExtRef)):
             return True
         if isinstance(v, Scalar):
             return v.rf.is_const()
         if isinstance(v, Tup):
-            return all(self._is_literal(x_) for x_ in v.items)
+            return all(self._is_literal(x_, st) for x_ in v.items)
+        if isinstance(v, Inst) and st is not None and self.prog.is_namedtuple(v.cls):
+            return all(self._is_literal(x_, st) for x_ in self.items(st, v))
         return False
 
     def unroll_for(self, loop: ast.For, its: List[AV], i: int, rest, st: State, ctx: Ctx):
